@@ -1,5 +1,6 @@
 SPECIFICATION Spec
 CONSTANTS
+  MaxT = 2
   NT = 2
   MaxSteps = 100000
   Modes = {"fire", "call"}
@@ -7,8 +8,8 @@ CONSTANTS
   Variants = {"resubmit"}
   WithStop = TRUE
   WithUnreg = TRUE
-  WithOther = TRUE
-  SettleCap = 40
+  WithOther = FALSE
+  KeepOut = FALSE
 INVARIANT Conforms
 VIEW View
 CHECK_DEADLOCK FALSE
